@@ -14,6 +14,7 @@ import (
 	"runtime"
 	"strconv"
 	"sync"
+	"syscall"
 	"time"
 )
 
@@ -30,7 +31,8 @@ type Rule struct {
 // Fault: at the Occ-th occurrence of Step, perform Action on the step's file
 // before the real operation runs. Actions: close (close the *os.File so that
 // the following write/sync/seek/read fails), rmdir (remove the directory in
-// Dir so that the following TempFile fails), corrupt (overwrite the file's
+// Dir so that the following TempFile fails), readonly (swap the descriptor for a
+// read-only one so that writes fail but later seeks and reads work), corrupt (overwrite the file's
 // content with garbage so that the following decode fails).
 type Fault struct {
 	Step   string `json:"step"`
@@ -150,6 +152,17 @@ func (s *Scheduler) apply(ft Fault, f *os.File) {
 			f.Close()
 			desc = "closed " + filepath.Base(f.Name())
 		}
+	case "readonly":
+		// replace the descriptor by a read-only one on the same file: the following writes fail,
+		// while later seeks and reads on the same *os.File keep working
+		if f != nil {
+			if ro, err := syscall.Open(f.Name(), syscall.O_RDONLY, 0); err == nil {
+				if err := syscall.Dup2(ro, int(f.Fd())); err == nil {
+					desc = "made " + filepath.Base(f.Name()) + " read-only"
+				}
+				syscall.Close(ro)
+			}
+		}
 	case "rmdir":
 		if s.Dir != "" {
 			os.RemoveAll(s.Dir)
@@ -158,7 +171,9 @@ func (s *Scheduler) apply(ft Fault, f *os.File) {
 	case "corrupt":
 		if f != nil {
 			if st, err := os.Stat(f.Name()); err == nil {
-				junk := bytes.Repeat([]byte{0xff, 0x00, 0x7f, 0x81}, int(st.Size())/4+4)
+				// a byte pattern every gob decoder rejects ("invalid message length"); zero-length
+				// messages, by contrast, are skipped silently and would look like a clean end of file
+				junk := bytes.Repeat([]byte{0xf8, 0xff, 0xff, 0xff, 0xff, 0xff, 0xff, 0xff, 0xff}, int(st.Size())/9+4)
 				os.WriteFile(f.Name(), junk, 0o600)
 				desc = "corrupted " + filepath.Base(f.Name())
 			}
